@@ -340,6 +340,10 @@ def _ema_grouped(
     masked = mask is not None
 
     for i, (k, x) in enumerate(zip(group_key, values)):
+        if k < 0:
+            # null key: the row belongs to no group (index -1 would be the last group)
+            out[i] = np.nan
+            continue
         if np.isnan(x) or (masked and not mask[i]):
             out[i] = last_seen[k]
         else:
@@ -434,6 +438,10 @@ def _ema_grouped_timed(
     masked = mask is not None
 
     for i, (k, x) in enumerate(zip(group_key, values)):
+        if k < 0:
+            # null key: the row belongs to no group (index -1 would be the last group)
+            out[i] = np.nan
+            continue
         if last_seen_times[k] > 0:
             hl = (times[i] - last_seen_times[k]) / halflife
             beta = np.exp(-np.log(2) * hl)
